@@ -401,6 +401,16 @@ fn scenario(seed: u64, i: usize, kind: u8) -> Scenario {
             // the destination cannot be written: the delivery fails, nothing may be executed
             sc.script.push(Entry::FsFault { ent: 1, op: "open".into(), nth: 0 });
         }
+        5 if !unack => {
+            // cancelled at the receiver in mid-transfer while the rest of the exchange (and the
+            // answer to its NAK) still arrives: unless the delivery had succeeded before, nothing runs
+            sc.ser_us = 1000;
+            if rng.chance(2, 3) {
+                sc.script.push(Entry::Fault { src: 0, dst: 1, sel: Sel::Nth(rng.below(prof.fwd.len().max(1) as u64) as u32), act: Act::Drop });
+            }
+            let at = Trigger::AfterPdu { src: 0, dst: 1, n: rng.below(prof.fwd.len() as u64 + 1) as u32 };
+            sc.script.push(Entry::User { ent: 1, op: UserOp::Cancel, put: 0, at });
+        }
         _ => {}
     }
     sc
@@ -417,9 +427,10 @@ fn build(_ctx: &Ctx, tier: Tier, seed: u64) -> Vec<Job<'static>> {
         "bounded loss/dup/delay (C02 envelope): requests still run, once",
         "re-deliveries after the success report (C04 window): requests do not run again",
         "filestore failure on the destination name: the delivery fails, nothing runs",
+        "cancel at the receiver in mid-transfer, the rest of the exchange still arriving: nothing runs unless the delivery had succeeded",
     ];
     let _ = Arc::new(0);
-    (0..5u8).map(|k| Job { label: labels[k as usize].into(), n: if k == 0 || k == 1 { n } else { n / 2 }, gen: Box::new(move |i| scenario(seed, i, k)) }).collect()
+    (0..6u8).map(|k| Job { label: labels[k as usize].into(), n: if k == 0 || k == 1 { n } else { n / 2 }, gen: Box::new(move |i| scenario(seed, i, k)) }).collect()
 }
 
 fn probes(a: &Analysis, out: &mut Vec<&'static str>) {
